@@ -133,6 +133,24 @@ CLAIMED = {
         "simulation: two-object disagreements that the shared-global model reproduces exactly), F20 (tau-leap on autocatalytic networks: "
         "Poisson sampler called with an astronomically large mean does not return).",
         "DESIGN.md section 6 / C10"),
+    "C11": (
+        "Coq proof of index safety of the bounds-checked model (sampling loop, flat-array offsets, neighbour-table entries), of the Poisson precondition guard and of freedom from use-after-free / double free on lifecycle-respecting histories + sanitizer-build correspondence (partial: allocator- and library-internal behaviour is observed, not proved)",
+        "Theorems (Props/C11.v, closed under the global context): the time-point sampling loop, modelled with bounds-checked reads in the "
+        "order the code evaluates them, never reads outside t_samples (empty list, all requests consumed, any clock) and computes what the "
+        "sampling contract says; every offset i*nS+s, s*nC+i, n*nC*nS+s*nC+i, i*6+dir, e*nR+r, s*nR+r, s*nE+e is inside its array; every "
+        "neighbour-table entry is 'none' or a cell of the grid for all w,h,d >= 1 and boundary mixes; the library Poisson sampler is "
+        "entered with a positive mean only; on every lifecycle-respecting one-object history nothing is used after deletion, deleted "
+        "twice or called through an unassigned pointer (C10's refinement). PARTIAL by nature: allocator behaviour, uninitialised padding "
+        "and undefined behaviour inside libstdc++/libm cannot be exhibited by the model; they are observed only. Tied to the code on "
+        "every run: the ASan + UBSan + _GLIBCXX_ASSERTIONS build of the engine from the working tree executes the lifecycle histories of "
+        "C10 and whole runs of random valid scripts (three engines, grid/graph, four policies incl. empty tails, four "
+        "init_state_processing modes, sub-molecule and > 100 amounts, periodic axes of length 1 and 2, isolated nodes) in child "
+        "processes; any report, death by signal or hang where the model predicts 'safe' is a violation.",
+        "Trusted: Coq kernel + VM; the hand-written models (the per-array index formulas are those of C01/C09/C15's models, tied to the "
+        "code there); the sanitizers and g++ -O1; sampled scripts (300 runs + ~400 histories quick, 6000 + ~6000 thorough); two-object "
+        "histories on which the lifecycle model predicts undefined behaviour are not judged (F13, see C10); hangs matching F20 are "
+        "discarded (see C10).",
+        "DESIGN.md section 6 / C11"),
     "C13": (
         "Coq proof of layout (species-major index), value (SI of density x volume), units and get/set array laws + random-system correspondence",
         "Theorems (Props/C13.v, closed under the global context, any number of species/cells/environments, grid or graph): entry "
